@@ -10,7 +10,7 @@ Att2 == { <<1, 2>>, <<2, 1, 2>> }
 Att3 == { <<1, 2, 3>>, <<3, 1, 3, 2>> }
 Case == [chains |-> [a \in Apps |-> chain[a]], outc |-> [a \in Apps |-> outc[a]], att |-> att,
          delivered |-> [a \in Apps |-> delivered[a]], consulted |-> [a \in Apps |-> consulted[a]],
-         handled |-> handled]
+         handled |-> handled, flushed |-> [a \in Apps |-> flushed[a]]]
 Emit == Done => PrintT(<<"REPLAY", ToJson(Case)>>)
 ThresholdTable == [t \in 0..5 |-> [l \in 1..5 |-> Threshold(t, l)]]
 MetaInit == Init /\ PrintT(<<"REPLAY", ToJson([meta |-> "threshold", table |-> ThresholdTable])>>)
